@@ -261,7 +261,10 @@ func explore(r *report.R, st *stats, s apib.Spec, level int, sampleIt bool) {
 	if n.ambiguous() {
 		st.ambiguous.Add(1)
 	}
-	regs := regSets(s, level)
+	regs := regSets(s, max(level, 0))
+	if level == levelOrder {
+		regs = orderRegs(s)
+	}
 	var evals, nontrivial int64
 	outcomes := map[string]int64{}
 	canServe := servable(s) && len(s.Ops) > 0
@@ -496,6 +499,13 @@ func main() {
 			{"media-2types-two-operations", mediaSweep(sub2, sub2, nilT, nilT, nil, [][2]int{{0, 1}}, nilT, nilJ, []secCfg{noSec}), 1},
 		}
 	}
+	sweeps = append([]sweep{{"registration-order", orderDescriptions(), levelOrder}}, sweeps...)
+	r.Set("registration_order", map[string]any{
+		"descriptions":       len(orderDescriptions()),
+		"operation_axis":     "every permutation of the operation registrations (3 operations, two or three of one method) x method spelling per registration from {UPPER, lower, Mixed}",
+		"media_axis":         "every permutation of the consumer / producer registrations (2 types) x spelling per registration from {as written, UPPER}",
+		"authenticator_axis": "every permutation of the authenticator registrations (2 schemes)",
+	})
 	r.Set("media_types", M3)
 	r.Set("odd_media_types", oddMedia)
 	r.Set("operation_shapes", fmt.Sprint(shapes))
@@ -556,5 +566,5 @@ func main() {
 		"descriptions with an upper-case, parameterised or wildcard media type are checked for the validation clause only (the property text excludes them from the serving clause)",
 		"histories: the registrations present after a sequence of calls are what the API's own lookups (ConsumersFor, ProducersFor, OperationHandlerFor, AuthenticatorsFor) report for every name of the case's universe",
 	)
-	r.Finish("HISTORIES: every stated history description x every stated initial registration state x every sequence of calls of length 0..depth over {Validate, WithJSONDefaults, WithoutJSONDefaults, RegisterConsumer x2 types, RegisterProducer x2 types, RegisterOperation declared/undeclared, RegisterAuth declared/undeclared} executed on ONE untyped.API value; every Validate() of the sequence and a final one are compared with the reference for the registrations present at that moment (read off the API through its public lookups), the final verdict is compared with a fresh API carrying the same registrations, and after a passing final Validate() every well-formed request is served. FRESH INSTANCES: every description of the stated sweeps x every registration set of the stated level (exact, each single omission, each single addition, omit-all, swap, two additions, case variants of media types and methods, with and without the JSON defaults, products across categories) -> one Validate() on a fresh real untyped.API compared with the reference; for every set on which the real Validate() returns nil and whose description is lower-case/parameter-free/wildcard-free: every operation x every consumes entry x every produces entry (+ no Accept) through middleware.Serve. One evaluation = one Validate() or one served request. Non-trivial = a Validate() where some required or registered set is non-empty, or a request that got past routing (not 404/405). Cases are distinct by construction: descriptions are de-duplicated across sweeps and registration sets are de-duplicated per description.", !cut.Load())
+	r.Finish("HISTORIES: every stated history description x every stated initial registration state x every sequence of calls of length 0..depth over {Validate, WithJSONDefaults, WithoutJSONDefaults, RegisterConsumer x2 types, RegisterProducer x2 types, RegisterOperation declared/undeclared/undeclared with the same method spelled lower-case, RegisterAuth declared/undeclared, HostileCaller = call ConsumersFor/ProducersFor/AuthenticatorsFor over the whole name universe, each single name and the empty list plus a Validate(), then delete every key of / add a foreign key to / overwrite every entry of each map and slice handed out or passed in} executed on ONE untyped.API value; a hostile-caller step must change neither the registrations the API reports nor Validate()'s verdict, a Register* step must make exactly its own item present and leave all other registrations as they were; every Validate() of the sequence and a final one are compared with the reference for the registrations present at that moment (read off the API through its public lookups), the final verdict is compared with a fresh API carrying the same registrations, and after a passing final Validate() every well-formed request is served. REGISTRATION ORDER: every stated order description (several operations of one method) x the exact registration set made in every permutation of the operation registrations x every vector of method spellings {UPPER, lower, Mixed}, every permutation x spelling {as written, UPPER} of the consumers and of the producers, every permutation of the authenticators, judged as any other registration set (Validate() must pass, then every well-formed request is served). FRESH INSTANCES: every description of the stated sweeps x every registration set of the stated level (exact, each single omission, each single addition, omit-all, swap, two additions, case variants of media types and methods, with and without the JSON defaults, products across categories) -> one Validate() on a fresh real untyped.API compared with the reference; for every set on which the real Validate() returns nil and whose description is lower-case/parameter-free/wildcard-free: every operation x every consumes entry x every produces entry (+ no Accept) through middleware.Serve. One evaluation = one Validate() or one served request. Non-trivial = a Validate() where some required or registered set is non-empty, or a request that got past routing (not 404/405). Cases are distinct by construction: descriptions are de-duplicated across sweeps and registration sets are de-duplicated per description.", !cut.Load())
 }
